@@ -14,7 +14,7 @@ for res in sorted(glob.glob(os.path.join(RES, 'C??-*.txt'))):
     txt = open(res).read()
     m_demo = re.search(r'demo_changed_exit=(\d+) demo_unchanged_exit=(\d+)', txt)
     m_suite = re.search(r'suite_exit=(\d+) (.*)', txt)
-    checks = re.findall(r'RESULT check=(C\d+) exit=(\d+)\s*(.*)', txt)
+    checks = re.findall(r'RESULT check=(C\d+) exit=(\d+)[ \t]*(.*)', txt)
     if not (m_demo and m_suite):
         print(tag, 'incomplete'); continue
     ok = m_demo.group(1) == '1' and m_demo.group(2) == '0' and m_suite.group(1) == '0'
